@@ -34,6 +34,8 @@ ASSUMPTIONS = [
     "event objects are truthy; encoding pinned to utf-8; keys named with Keynames.BYTES so that every returned key shows "
     "the bytes it consumed (naming itself is C03/C20)",
     "key segmentation (events.get_key) is a parameter of the Lean theorems; its own correctness is C03",
+    "a scheduled event is deliverable iff when < time.time() (the code's test; 'never before its time' allows delivery from "
+    "when on, and with integer ticks a request at exactly when returns None once - not flagged, by decision of the coordinator)",
     "a request that would block forever (timeout None, nothing ever arrives) is reported as such by both sides and ends the script",
 ]
 LEVEL_NOTE = ("PARTIAL: proof over a discrete-event model of Input in which thread preemption happens only at select and between "
@@ -468,6 +470,7 @@ class Ledger:
         self.timeout = timeout
         self.was_deliverable = self.deliverable(env.clock)
         self.sched_at_start = bool(self.pending_sched())
+        self.n_sched_at_start = len(self.sched)
         self.spur0 = env.spurious
         self.req += 1
 
@@ -497,9 +500,11 @@ class Ledger:
                         self.fail("scheduled event %d (when=%r) returned at clock %r, before its time" % (r.id, r.when, now))
                     first = min(pend)
                     if first[2] != r.id:
+                        # footprint D20: the earlier-timed event was scheduled during this very request
+                        fp20 = None   # (was D22: fixed in /repo 07d34d9)
                         self.fail("scheduled event %d (when=%r) returned while event %d (when=%r, triggered %s) was pending: "
                                   "not in time order" % (r.id, r.when, first[2], first[0],
-                                                         "earlier" if first[1] < mine[0][1] else "later"))
+                                                         "earlier" if first[1] < mine[0][1] else "later"), fp20)
                     self.sched_ret.add(r.id)
             elif isinstance(r, Ev):
                 self.ret.setdefault(r.kind, []).append(r.id)
@@ -520,6 +525,11 @@ class Ledger:
                         fp = "D15"
                 elif lost_n > 0:
                     fp = "D15" if incomplete_tail(parse_lost(str(r))) else None
+            elif how == "raised" and isinstance(r, UnicodeDecodeError):
+                # footprint D12 (C03): the decoder saw a KEYMAP_PREFIXES member followed by one byte >= 0x80
+                seq = bytes(r.object)
+                if len(seq) >= 2 and seq[:-1] in cevents.KEYMAP_PREFIXES and seq[-1] >= 0x80:
+                    fp = "D12"
             self.fail("bytes lost, duplicated or reordered (%s): entered %d stream + %d unget bytes, returned %d, still held %d"
                       % ("request raised %s" % type(r).__name__ if how == "raised" else how, len(self.S), len(self.U),
                          len(self.R), len(h["u"]) + len(h["o"])), fp)
@@ -528,7 +538,9 @@ class Ledger:
             self.U = bytearray()
             self.R = bytearray(merged[:len(self.R)])
         elif how == "raised":
-            self.fail("request raised %s: %s (nothing was lost)" % (type(r).__name__, r))
+            # footprint D20: `when` unbound - no scheduled event at the start of the request, one scheduled during it
+            fp = None
+            self.fail("request raised %s: %s (nothing was lost)" % (type(r).__name__, r), fp)
         for k, ids in self.ent.items():
             heldk = [e.id for e in (h["q"] if k[0] == "q" else h["i"]) if e.kind == k]
             if self.ret.get(k, []) + heldk != ids:
@@ -555,7 +567,7 @@ class Ledger:
         if first is not None and thr is not None and len(first) > thr and how == "returned":
             if not isinstance(r, cevents.PasteEvent):
                 self.fail("a read of %d bytes (> paste_threshold %d) did not come back as a paste event" % (len(first), thr))
-            elif b"".join(r.events)[:len(first)] != first:
+            elif first not in b"".join(r.events):
                 self.fail("paste event does not hold the burst's keypresses in order")
 
 
@@ -632,41 +644,82 @@ def thresholds():
     return [None, 0, 1, 8, cevents.MAX_KEYPRESS_SIZE + 1]
 
 
+def rand_stream(r, n, d12=False):
+    """a VALID input stream of about n bytes: ASCII, UTF-8 characters, escape sequences, lone ESC keys (a lone ESC is
+    followed by an ASCII unit unless d12: ESC + non-ASCII byte is C03's finding D12)"""
+    out = bytearray()
+    prev_esc_prefix = False
+    while len(out) < n:
+        u = rand_unit(r)
+        if prev_esc_prefix and u[0] >= 0x80 and not d12:
+            u = b"z"
+        out += u
+        # after a unit that is a KEYMAP_PREFIXES member (or ends the stream as one) a non-ASCII byte would hit D12
+        prev_esc_prefix = any(bytes(out[-k:]) in cevents.KEYMAP_PREFIXES for k in range(1, 7))
+    if prev_esc_prefix:
+        out += b"z"
+    return bytes(out)
+
+
+def cut(r, data, k):
+    """partition data into k non-empty pieces at arbitrary byte positions (inside characters too)"""
+    if k <= 1 or len(data) < 2:
+        return [data]
+    k = min(k, len(data))
+    pts = sorted(r.sample(range(1, len(data)), k - 1))
+    return [data[a:b] for a, b in zip([0] + pts, pts + [len(data)])]
+
+
 def rand_case(r):
     thr = r.choice(thresholds())
     wake = r.random() < 0.85
     npipes = r.choice([0, 1, 1, 2])
+    d12 = r.random() < 0.05
+    slots = []
+    for _ in range(r.randint(0, 9)):
+        x = r.random()
+        slots.append("A" if x < 0.40 else "U" if x < 0.47 else "T" if x < 0.60 else "S" if x < 0.72 else
+                     "X" if x < 0.86 else "I" if x < 0.93 else "G" if x < 0.98 else "Z")
+    nA, nU = slots.count("A"), slots.count("U")
+    # stream sizes: mostly small, sometimes a burst around a boundary
+    if nA:
+        total = r.choice(sizes(thr)) + r.choice([0, 0, 1, -1, 3]) if r.random() < 0.3 else r.randint(nA, 12 * nA)
+        stream = rand_stream(r, max(total, nA), d12)
+        if r.random() < 0.5:
+            # one big piece + small ones: the burst arrives in one go
+            small = [stream[i:i + 1] for i in range(nA - 1)]
+            apieces = ([stream[:len(stream) - (nA - 1)]] + [stream[len(stream) - (nA - 1) + i:][:1] for i in range(nA - 1)]) if nA > 1 else [stream]
+            apieces = [p for p in apieces if p]
+        else:
+            apieces = cut(r, stream, nA)
+    else:
+        apieces = []
+    upieces = [rand_stream(r, r.randint(1, 4), d12) for _ in range(nU)]   # whole keypresses (what a foreign read leaves over)
     agenda, t, eid = [], 0, 0
     pend_writes = []
-    big_used = False
-    for _ in range(r.randint(0, 9)):
+    for k in slots:
         t += r.choice([0, 0, 0, 1, 1, 2, 5])
-        x = r.random()
-        if x < 0.40:
-            if r.random() < 0.25 and not big_used:
-                n = r.choice(sizes(thr)) + r.choice([0, 0, 1, -1])
-                big_used = n > 200
-            else:
-                n = r.randint(1, 12)
-            n = max(1, n)
-            data = rand_bytes(r, n) if r.random() < 0.35 else whole_units(r, n - 1) if n > 1 else b"a"
-            agenda.append((t, "A", data.hex()))
-        elif x < 0.47:
-            agenda.append((t, "U", (rand_bytes(r, r.randint(1, 5)) if r.random() < 0.3 else whole_units(r, r.randint(0, 3))).hex()))
-        elif x < 0.60:
+        if k == "A":
+            if apieces:
+                agenda.append((t, "A", apieces.pop(0).hex()))
+        elif k == "U":
+            if upieces:
+                agenda.append((t, "U", upieces.pop(0).hex()))
+        elif k == "T":
             agenda.append((t, "T", eid)); eid += 1
-        elif x < 0.75:
+        elif k == "S":
             agenda.append((t, "S", r.choice([0, 1, 2, 3, 3, 5, 5, 8, t, t + 1, t + 3]), eid)); eid += 1
-        elif x < 0.87 and npipes:
-            p = r.randrange(npipes)
-            agenda.append((t, "X", p, eid)); eid += 1
-            pend_writes.append(p)
-            if r.random() < 0.6:
-                agenda.append((t, "Y", pend_writes.pop(0)))
-        elif x < 0.94:
+        elif k == "X":
+            if npipes:
+                p = r.randrange(npipes)
+                agenda.append((t, "X", p, eid)); eid += 1
+                pend_writes.append(p)
+                if r.random() < 0.6:
+                    agenda.append((t, "Y", pend_writes.pop(0)))
+        elif k == "I":
             if wake:
                 agenda.append((t, "I"))
-        elif x < 0.98:
+        elif k == "G":
             agenda.append((t, "G", 28))
         else:
             agenda.append((t, "Z"))
@@ -687,6 +740,12 @@ def rand_case(r):
 def corpus():
     e = "€".encode().hex()
     return [
+        # D22 (fixed 07d34d9): a scheduled callback fired during a blocked request; stale/unbound `when`
+        dict(thr=8, wake=1, npipes=0, agenda=[(1, "S", 0, 0), (2, "A", "61")], ops=[("r", 5), ("r", 0), ("r", 0)], tag="corpus"),
+        dict(thr=8, wake=1, npipes=0, agenda=[(0, "S", 5, 0), (2, "G", 28), (3, "S", 3, 1)],
+             ops=[("d", 0), ("r", 10), ("r", 0), ("r", 0)], tag="corpus"),
+        # D12 (C03's finding) seen from C08: Esc then a non-ASCII character available together
+        dict(thr=8, wake=1, npipes=0, agenda=[(0, "A", "1bc3a9")], ops=[("d", 0), ("r", 0), ("r", 0), ("r", 0)], tag="D12"),
         # D15 witness (also the Lean witness theorem C08_D15_witness)
         dict(thr=8, wake=1, npipes=0, agenda=[(0, "A", e[:4]), (1, "A", e[4:])], ops=[("r", None), ("r", None), ("r", 0)], tag="D15"),
         # D15 inside a paste: the whole paste is lost
@@ -712,7 +771,7 @@ def boundary_cases(r):
              lambda n: ("€" * (n // 3 + 1)).encode()[:n],
              lambda n: (b"\x1b[A" * (n // 3 + 1))[:n],
              lambda n: ("😀".encode() * (n // 4 + 1))[:n],
-             lambda n: rand_bytes(r, n)]
+             lambda n: (rand_stream(r, n + 8) + b'zzzzzzzz')[:n]]
     for thr in thresholds():
         for n in sizes(thr):
             for ki, k in enumerate(kinds):
@@ -796,7 +855,7 @@ def check(ctx):
     # the witness of the open finding must still fail on the real code (else the finding is stale)
     install()
     try:
-        w = oracle(corpus()[0])
+        w = oracle([c for c in corpus() if c.get("tag") == "D15"][0])
     finally:
         uninstall()
     if not any(fp == "D15" for _, fp in w):
